@@ -54,7 +54,7 @@ class ModProxy(object):
 
 # ------------------------------------------------------------------- os
 def _simfd(fd):
-    return type(fd) is int and fd >= FD_BASE
+    return type(fd) is int and (fd >= FD_BASE or (K is not None and fd in K.low))
 
 
 def os_read(fd, n):
@@ -264,7 +264,7 @@ def _check_fds(fds):
             raise TypeError('argument must be an int, or have a fileno() method.')
         if fd < 0:
             raise ValueError('file descriptor cannot be a negative integer (%d)' % fd)
-        if fd >= FD_BASE:
+        if _simfd(fd):
             K.touch(fd, 'select')
             if fd not in K.fds:
                 raise oserr(errno.EBADF)
@@ -273,7 +273,7 @@ def _check_fds(fds):
 
 
 def _ready_r(fd):
-    if fd < FD_BASE:
+    if not _simfd(fd):
         return False
     of = K.fds.get(fd)
     return of is None or of.readable()
@@ -327,7 +327,7 @@ class SimPoll(object):
     def _events(self):
         out = []
         for fd, mask in self.reg.items():
-            if fd < FD_BASE:
+            if not _simfd(fd):
                 continue
             K.touch(fd, 'poll')
             of = K.fds.get(fd)
